@@ -1286,3 +1286,35 @@ package stun
 //@   ensures old(Secure(uri.Scheme)) && result1 == nil ==> Dialed(1) && Wrapped(1) && errval(result0.c) == gmap(wrap_out)[old(ghost(wrap_n))]
 // frame: the URI is not modified. The two ServerName fields of the caller's configuration are listed as assignable
 // because the property does not forbid writing them (the code copies the configs); what is demanded is the name presented.
+
+// ---- ForEach (C02): visits exactly the attributes of type t, in wire order, each with the message narrowed to the
+// suffix starting at it, and restores the attribute list on every exit. The callback is assumed not to modify the
+// message; its invocations are recorded in a ghost log: fe_seq[e] = absolute index (offset in the backing array) of the
+// first attribute it was shown, fe_len[e] = how many it was shown, fe_vis[k] = how often index k was the first.
+//@ func (*Message).ForEach.f(f, m)
+//@   requires m != nil
+//@   assigns ghost(fe_n), gmap(fe_seq)[ghost(fe_n)], gmap(fe_len)[ghost(fe_n)], gmap(fe_vis)[off(m.Attributes)]
+//@   ensures ghost(fe_n) == old(ghost(fe_n)) + 1
+//@   ensures gmap(fe_seq)[old(ghost(fe_n))] == off(m.Attributes) && gmap(fe_len)[old(ghost(fe_n))] == len(m.Attributes)
+//@   ensures gmap(fe_vis)[off(m.Attributes)] == old(gmap(fe_vis)[off(m.Attributes)]) + 1
+
+//@ define FeVisited(a, t, lo, hi, upto) = forall(j, lo, hi, gmap(fe_vis)[off(a) + j] == old(gmap(fe_vis)[off(a) + j]) + ite(a[j].Type == t && off(a) + j <= upto, 1, 0))
+//@ define FeLog(a, t, hi) = forall(e, old(ghost(fe_n)), ghost(fe_n), off(a) <= gmap(fe_seq)[e] && gmap(fe_seq)[e] < off(a) + hi
+//@   |   && a[gmap(fe_seq)[e] - off(a)].Type == t && gmap(fe_len)[e] == len(a) - (gmap(fe_seq)[e] - off(a)))
+//@   | && forall(e, old(ghost(fe_n)), ghost(fe_n) - 1, gmap(fe_seq)[e] < gmap(fe_seq)[e + 1])
+//@ func (*Message).ForEach
+//@   safety C02
+//@   props C02
+//@   requires m != nil && f != nil
+//@   assigns m.Attributes, ghost(fe_n), gmap(fe_seq), gmap(fe_len), gmap(fe_vis)
+//@   ensures sameslice(m.Attributes, old(m.Attributes))
+//@   ensures ghost(fe_n) >= old(ghost(fe_n)) && FeLog(m.Attributes, t, len(m.Attributes))
+//@   ensures result == nil ==> FeVisited(m.Attributes, t, 0, len(m.Attributes), off(m.Attributes) + len(m.Attributes))
+//@   ensures result != nil ==> ghost(fe_n) > old(ghost(fe_n)) && FeVisited(m.Attributes, t, 0, len(m.Attributes), gmap(fe_seq)[ghost(fe_n) - 1])
+//@   loop 0
+//@     assigns a, m.Attributes, ghost(fe_n), gmap(fe_seq), gmap(fe_len), gmap(fe_vis)
+//@     invariant (-1 <= rangeindex && rangeindex < len(attrs)) || (len(attrs) == 0 && rangeindex == -1)
+//@     invariant sameslice(attrs, old(m.Attributes)) && region(m.Attributes) == region(attrs)
+//@     invariant ghost(fe_n) >= old(ghost(fe_n)) && FeLog(attrs, t, rangeindex + 1)
+//@     invariant FeVisited(attrs, t, 0, len(attrs), off(attrs) + rangeindex)
+//@     decreases len(attrs) - rangeindex
